@@ -5,6 +5,8 @@ SPEC = {
     'title': 'Malformed or adversarial inputs produce errors, never panics or hangs',
     'coq_check': 'C13_check',
     'parts': [
+        {'pkg': 'commit/merkleroot/rmn', 'pkgname': 'rmn', 'src': 'harness/commit/merkleroot/rmn/c06_test.go', 'test': 'TestVerif_C06_sweep',
+         'sinks': {'C06_sweep': 'c06_judge'}, 'n': {'quick': 1, 'thorough': 6}},
         {'pkg': 'commit', 'src': 'harness/commit/c13_test.go', 'test': 'TestVerif_C13_commit', 'fakes': True, 'extra_libs': ['vmutate'],
          'sinks': {'C13_commit': 'sweep_judge'}, 'n': {'quick': 400, 'thorough': 40000}},
         {'pkg': 'execute', 'src': 'harness/execute/c13_test.go', 'test': 'TestVerif_C13_exec', 'fakes': True, 'extra_libs': ['vmutate'],
